@@ -1,5 +1,6 @@
 import Driver.Util
 import OlricModel.DMap.Model
+import OlricModel.DMap.Evict
 namespace Driver
 open Olric Olric.DMap
 
@@ -12,9 +13,23 @@ structure CSt where
   mcq : Nat := 1
   numMembers : List (Nat × Nat) := []     -- member ↦ member count it currently sees (if overridden)
   ntok : Nat := 0                          -- lock tokens handed out so far
+  parts : List ((Bytes × Key) × Nat) := []  -- partition id of every key seen (read from the running cluster)
+  ecfg : EvCfg := {}                       -- eviction settings of every DMap ...
+  cdm : Bytes := []                        -- ... except this one, which has its own idle window
+  cidle : Int := 0
+  la : List ((Bytes × Key) × Int) := []    -- last access of the owner's primary entries
 
 def CSt.route (s : CSt) (dm : Bytes) (k : Key) : Route := (s.routes.lookup (dm, k)).getD ⟨[0], []⟩
 def CSt.reach (s : CSt) : Reach := fun m => !(s.unreachable.contains m)
+def CSt.ecfgOf (s : CSt) (dm : Bytes) : EvCfg := if s.cdm != [] && dm == s.cdm then { s.ecfg with idle := s.cidle } else s.ecfg
+/-- the keys seen so far that hash to the partition of (dm, k) -/
+def CSt.univ (s : CSt) (dm : Bytes) (k : Key) : List Key :=
+  match s.parts.lookup (dm, k) with
+  | some p => (s.parts.filter (fun e => e.1.1 == dm && e.2 == p)).map (·.1.2)
+  | none => [k]
+def CSt.touch (s : CSt) (dm : Bytes) (k : Key) (now : Int) : CSt :=
+  { s with la := ((dm, k), now) :: s.la.filter (fun e => e.1 != (dm, k)) }
+def CSt.laFun (s : CSt) : LA := fun d x => (s.la.lookup (d, x)).getD 0
 
 def optNat (a : List String) (key : String) (d : Nat) : Nat :=
   match a.find? (fun x => x.startsWith (key ++ "=")) with
@@ -54,7 +69,7 @@ def fmtDRes : DMap.Res → String
 
 def range (n : Nat) : List Nat := List.range n
 
-def dataOps : List String := ["c.put", "c.get", "c.getx", "c.del", "c.expire", "c.getput", "c.incr", "c.decr", "c.lock", "c.lockw", "c.unlockx", "c.leasex", "c.atomx",
+def dataOps : List String := ["c.put", "c.get", "c.getx", "c.del", "c.expire", "c.getput", "c.incr", "c.putv", "c.decr", "c.lock", "c.lockw", "c.unlockx", "c.leasex", "c.atomx",
   "c.unlock", "c.lease", "c.destroy", "c.pipeline"]
 
 def tokBytes (n : Nat) : Bytes := ("tok" ++ toString n).toUTF8.toList
@@ -67,6 +82,15 @@ def CSt.belowQuorum (s : CSt) (entry : Nat) : Bool :=
   | some n => decide (n < s.mcq)
   | none => false
 
+/-- a background scan of every DMap (a pair is returned: see the remark at `DMap.mergeEntries`) -/
+def evictAll (s : CSt) (now : Int) : List Bytes → Cluster → Cluster × Nat
+  | [], c => (c, 0)
+  | dm :: rest, c =>
+    let keys := (s.parts.filter (fun e => e.1.1 == dm)).map (·.1.2)
+    let (c1, n1) := DMap.evScan (s.ecfgOf dm) s.cfg (fun k => s.route dm k) s.laFun dm now c keys
+    let (c2, n2) := evictAll s now rest c1
+    (c2, n1 + n2)
+
 def clusterStep (s : CSt) (now : Int) (op : String) (a : List String) : Option (CSt × String) :=
   let arg (i : Nat) : String := a.getD i ""
   if dataOps.contains op && s.belowQuorum (nat (arg 1)) then some (s, "cq") else
@@ -75,7 +99,14 @@ def clusterStep (s : CSt) (now : Int) (op : String) (a : List String) : Option (
     let n := optNat a "n" 1
     let cfg : Cfg := { R := optNat a "r" 1, W := optNat a "w" 1, RQ := optNat a "rq" 1,
                        readRepair := optNat a "rr" 0 == 1, dmTTL := (optNat a "ttl_ms" 0 : Nat) * 1000000 }
-    some ({ n := n, cfg := cfg, cl := Cluster.empty, routes := [], unreachable := [], mcq := 1 }, s!"ok n={n}")
+    let ls := optNat a "lrusamples" 0
+    let ecfg : EvCfg := { lru := optNat a "lru" 0 == 1, maxKeys := optNat a "maxkeys" 0, maxInuse := optNat a "maxinuse" 0,
+                          lruSamples := if ls == 0 then 5 else ls, idle := (optNat a "idle_ms" 0 : Nat) * 1000000 }
+    let cdm := match a.find? (fun x => x.startsWith "cdm=") with
+      | some x => ((x.drop 4).toString).toUTF8.toList
+      | none => []
+    some ({ n := n, cfg := cfg, cl := Cluster.empty, routes := [], unreachable := [], mcq := 1,
+            ecfg := ecfg, cdm := cdm, cidle := (optNat a "cidle_ms" 0 : Nat) * 1000000 }, s!"ok n={n}")
   | "c.mcq" => some ({ s with mcq := nat (arg 0) }, "ok")
   | "c.unreach" => some ({ s with unreachable := nat (arg 0) :: s.unreachable }, "ok")
   | "c.nummembers" => some ({ s with numMembers := (nat (arg 0), nat (arg 1)) :: s.numMembers.filter (·.1 != nat (arg 0)) }, "ok")
@@ -83,24 +114,50 @@ def clusterStep (s : CSt) (now : Int) (op : String) (a : List String) : Option (
     -- c.own <dmap> <key> <prims>/<baks>   (the route is an input: read from the running cluster)
     let dm := (arg 0).toUTF8.toList
     let k := unhx (arg 1)
-    let pb := (arg 2).splitOn "/"
+    let pick := a.getD (a.length - 2) ""
+    let part := a.getD (a.length - 1) ""
+    let pb := pick.splitOn "/"
     let r : Route := ⟨parseIdxList (pb.getD 0 "-"), parseIdxList (pb.getD 1 "-")⟩
-    some ({ s with routes := ((dm, k), r) :: s.routes.filter (fun p => p.1 != (dm, k)) }, s!"route pick={arg 2}")
+    some ({ s with routes := ((dm, k), r) :: s.routes.filter (fun p => p.1 != (dm, k)),
+                   parts := ((dm, k), nat part) :: s.parts.filter (fun p => p.1 != (dm, k)) }, s!"route pick={pick} part={part}")
   | "c.put" =>
     let dm := (arg 2).toUTF8.toList
     let k := unhx (arg 3)
     let pc := parsePutCfg (a.drop 5) {}
     let (cl', res) := DMap.put s.cfg (s.route dm k) s.reach s.cl dm k (unhx (arg 4)) pc now
+    let s := if res == .ok then s.touch dm k now else s
     some ({ s with cl := cl' }, fmtDRes res)
+  | "c.putv" =>
+    -- c.put under the LRU policy: ... <victims|-> <owned>   (what the sampling evicted and the number of partitions the
+    -- owner owns are inputs read from the running cluster)
+    let dm := (arg 2).toUTF8.toList
+    let k := unhx (arg 3)
+    let owned := nat (a.getD (a.length - 1) "0")
+    let vs := a.getD (a.length - 2) "-"
+    let victims := if vs == "-" then [] else (vs.splitOn ",").map unhx
+    let pc := parsePutCfg ((a.drop 5).take (a.length - 7)) {}
+    match DMap.lruPut (s.ecfgOf dm) owned s.cfg (s.route dm k) s.reach s.cl dm (s.univ dm k) k (unhx (arg 4)) pc now victims with
+    | none => some (s, s!"impossible-eviction pick={vs} owned={owned}")
+    | some (cl', res) =>
+      let s := if res == .ok then s.touch dm k now else s
+      some ({ s with cl := cl' }, s!"{fmtDRes res} pick={vs} owned={owned}")
+  | "bg.evict" =>
+    -- one background scan of every primary fragment; every entry is visited (the streams keep fragments below
+    -- the 19 entries a scan looks at)
+    let dms := (s.parts.map (·.1.1)).eraseDups
+    let (cl', _) := evictAll s now dms s.cl
+    some ({ s with cl := cl' }, "ok")
   | "c.get" =>
     let dm := (arg 2).toUTF8.toList
     let k := unhx (arg 3)
     let (cl', res) := DMap.get s.cfg (s.route dm k) s.reach s.cl dm k now
+    let s := if (s.cl.copy (s.route dm k).owner .prim dm k).isSome then s.touch dm k now else s
     some ({ s with cl := cl' }, fmtDRes res)
   | "c.getx" =>
     let dm := (arg 2).toUTF8.toList
     let k := unhx (arg 3)
     let (cl', res) := DMap.get s.cfg (s.route dm k) s.reach s.cl dm k now
+    let s := if (s.cl.copy (s.route dm k).owner .prim dm k).isSome then s.touch dm k now else s
     some ({ s with cl := cl' }, match res with
       | .val c => s!"{hx c.val} ttl={c.ttl} ts={c.ts}"
       | r => fmtDRes r)
